@@ -222,3 +222,30 @@ _p("C03", modules=["robustness", "demux", "ports", "quic_output", "main_run"], l
    not_under_contract=["tlexport.quic.quic_dissector.extract_quic_packet", "QuicSession.handle_packet/handle_quic_packet/decrypt_packet", "Session.generate_keys exception freedom"])
 
 _p("C01", modules=["record_protection"], level="other", level_text="in progress", level_note="in progress", explanation="in progress")
+
+_p("C13", modules=["metadata", "quic_output", "tcp_output", "robustness", "record_protection"], level="other",
+   technique="contract-based deductive verification: two-run (product) contract on the record handler + builder contracts parametrised by the flag",
+   level_text="Proved: for every non-hello record, session state and decryptor behaviour, handle_tls_record run with exp_meta False and True ends with identical flags, identical "
+              "decryptor call sequence and identical application-data entries; with -a the only additions are entries carrying that very record (ChangeCipherSpec and alert "
+              "records verbatim); -a never turns a quiet record into an exception; OutputBuilder.build hands every record to the builder of its direction with its own plaintext, "
+              "in list order, whatever else is in the list; QUICOutputbuilder.build keeps every STREAM frame's data, in order and direction, for both values of the flag "
+              "(the kept-data clause of its transition relation); the TLS 1.3 inner-plaintext handler exports exactly the content for type 23.",
+   level_note="level 'other': the ClientHello/ServerHello branch (hello parsing + key generation) is excluded from the product harness by precondition - it does not read exp_meta "
+              "(syntactic), but that is argued, not proved; 'same payloads in the same order' for whole runs is the composition of these per-call contracts",
+   design_ref="DESIGN.md 4 C13", explanation="Per-record and per-builder obligations discharged for both values of the flag; the whole-run subsequence statement is their composition (paper).",
+   assumptions=[], trusted_base=[], not_under_contract=["handle_tls_client_hello / handle_tls_server_hello under the product harness"])
+
+_p("C08", modules=["prefix", "framing", "tcp_output", "quic_output", "main_run", "demux"], level="other",
+   technique="syntactic frame obligations (append-only accumulators, no look-ahead) + bounded product contract + builder transition relations",
+   level_text="The export is a left fold over the capture. Discharged: every accumulating list (packet_buffer, application_traffic, output_buffer, the builders' out lists, "
+              "main's session/key lists after the reset) is append-only; each fold loop reads its input only through its loop variable (no look-ahead, no second pass); "
+              "records delivered from the first k captured segments are a prefix of those from all segments (product contract, bounded to 3 segments / 14 bytes, all "
+              "orders incl. the open finding's region); the builders' per-iteration transition relations depend on the current element and the accumulated state only; "
+              "records are released only when whole (framing contract).",
+   level_note="level 'other': the prefix property of the DECRYPTED bytes needs 'decrypting a prefix of the records yields a prefix of the plaintext' - true for the record-at-a-time "
+              "protection proved in C01 (state advances per record) but the end-to-end statement is not derived; QUIC's last datagram group is flushed at end of input and a cut "
+              "inside a group cannot occur (datagrams are atomic); frame obligations are syntactic and conservative",
+   design_ref="DESIGN.md 4 C08", explanation="Causality of the fold is established by frame obligations and a bounded product contract; the crypto step is per record (C01) and the lifting is on paper.",
+   assumptions=[], trusted_base=[], bounded=BOUNDED_FRAMING, not_under_contract=[])
+
+_p("C02", modules=["quic_session_c", "quic_output", "demux", "quic_pkn", "keys"], level="other", level_text="in progress", level_note="in progress", explanation="in progress")
